@@ -281,7 +281,12 @@ def insitu_case(ctx, i, rng):
         mon.attach(cls, "__sub__", after=after_sub, sample=samp)
         mon.attach(cls, "inverse", after=after_inv, sample=samp)
         try:
-            M.quiet_optimize(g, max_iter=3, tol=0.0)
+            del M.PROCESS_LEAKS[:]
+            M.quiet_optimize(g, max_iter=int(rng.choice([3, 3, 20])), tol=float(rng.choice([0.0, 1e-4])))
+            # pose arithmetic after an optimizer run happens in the same process: the run must leave numpy's floating-point error mode (and the other
+            # process-wide settings) as it found them, or compositions with tiny components start raising instead of returning the group element
+            ctx.check("oplus-vs-reference", not M.PROCESS_LEAKS, {"kind": k, "where": "process-wide arithmetic mode after an optimizer run"}, {"changed": M.PROCESS_LEAKS[:2]}, None)
+            del M.PROCESS_LEAKS[:]
         except Exception as ex:
             ctx.count("insitu_optimizer_exception:" + type(ex).__name__)
     ctx.count("insitu_operator_calls_observed", seen[0])
